@@ -101,6 +101,20 @@ class KernelProp(Prop):
                 f.add(f"{op['op']}:{head}")
             if r["ev"]:
                 f.add("event")
+            # how the operation was made (the counts say how often each route was exercised)
+            if op["op"] == "enter" and op.get("comp"):
+                f.add("frame:component" + ("_aliased" if op["comp"] == "alias" else ""))
+            if op.get("via") == "shortcut" and op["op"] in ("add", "addf", "getnw", "get", "addtd", "getall"):
+                f.add("via:module_level_function")
+            if op.get("via") == "ctxtd":
+                f.add("via:context_teardown")
+            for flag, name in (("defer", "lookup:coroutine_awaited_later"), ("forget", "context:dropped_after_exit"),
+                               ("cancelAt", "exit:cancelled_during_teardown"), ("pre", "enter:under_pending_cancellation"),
+                               ("manual", "enter:by_hand"), ("late", "inject:called_before_types_exist")):
+                if op.get(flag) not in (None, False):
+                    f.add(name)
+            if op["op"] == "inject" and "fn" in op and any(o is not op and o.get("fn") == op["fn"] for o in case["ops"]):
+                f.add("inject:function_called_again")
         f.add("backend_" + case.get("backend", "asyncio"))
         return sorted(f)
 
